@@ -356,7 +356,7 @@ def interleaved(run, rng, n):
             r = ranges[dt]
             vals = [rng.randint(0 if dt in ("uint8", "bool") else -r, r) for _ in range(m)]
             if dt.startswith("float"):
-                vals = [float(x) / rng.choice([1, 2, 4]) for x in vals]
+                vals = [float(x) / rng.choice([1, 2, 4, 3, 7]) for x in vals]
                 if func in ("ffill", "bfill", "nancumsum", "nansum") and rng.random() < 0.6:
                     vals[rng.randrange(m)] = float("nan")
             chunks = list(G.random_composition(rng, m, 4)) if rng.random() < 0.8 else None
